@@ -340,6 +340,9 @@ func (c *Ctx) guardReset(op reuseOp, owner, field string, resetStores map[string
 				n := 0
 				for _, g := range gs {
 					cond, truth := g.atom()
+					if phi, isPhi := cond.(*ssa.Phi); isPhi && isBoolType(phi.Type()) {
+						continue // a named short-circuit condition: its operands follow as separate guards
+					}
 					bo, ok := cond.(*ssa.BinOp)
 					if !ok || (bo.Op != token.EQL && bo.Op != token.NEQ) || (bo.Op == token.EQL) != truth {
 						// guards unrelated to the reset (e.g. scanner != nil) are tolerated only if they are nil checks of reset fields
@@ -497,30 +500,52 @@ func ruleStateLookahead(c *Ctx) []*Obligation {
 		}
 		o.check(n == 1 && good, key, c.Pos(next.Pos()), "reads a token only when nothing is cached", "NextToken reads a new token although one is cached (the cached token is lost) or never reads")
 		key2 := c.FuncKey(next) + "#clears-cache"
-		cleared := false
-		if st, ok := c.unconditionalStores(next)["NextTokenValue"]; ok && isNilConst(st.Val) {
-			cleared = true
+		// on every return the cache is empty: a nil store dominates the return, or the return is
+		// reached only with the cache tested empty; and NextToken never stores anything else into it
+		cleared := true
+		var nilStores []*ssa.Store
+		for _, b := range next.Blocks {
+			for _, in := range b.Instrs {
+				if st, ok := in.(*ssa.Store); ok {
+					if fa, ok := st.Addr.(*ssa.FieldAddr); ok && fieldName(fa.X.Type(), fa.Field) == "NextTokenValue" {
+						if isNilConst(st.Val) {
+							nilStores = append(nilStores, st)
+						} else {
+							cleared = false
+						}
+					}
+				}
+			}
 		}
-		o.check(cleared, key2, c.Pos(next.Pos()), "always empties the cache", "NextToken does not always empty the look-ahead cache: the same token is delivered twice")
+		for _, ret := range returnsOf(next) {
+			okRet := cacheNilGuard(ret.Block(), true)
+			for _, st := range nilStores {
+				if instrDominates(st, ret) {
+					okRet = true
+				}
+			}
+			if !okRet {
+				cleared = false
+			}
+		}
+		o.check(cleared, key2, c.Pos(next.Pos()), "the cache is empty on every return", "NextToken does not always empty the look-ahead cache: the same token is delivered twice")
 		// returns cached-or-read value
 		key3 := c.FuncKey(next) + "#returns-it"
-		okRet := false
+		hasCache, hasRead, other := false, false, false
 		for _, ret := range returnsOf(next) {
-			leaves := phiLeaves(ret.Results[0])
-			hasCache, hasRead := false, false
-			for _, l := range leaves {
-				if isFieldLoad(l, "NextTokenValue") {
+			for _, l := range phiLeaves(ret.Results[0]) {
+				switch {
+				case isFieldLoad(l, "NextTokenValue"):
 					hasCache = true
-				}
-				if call, ok := l.(*ssa.Call); ok && isRead(call) {
+				case func() bool { call, ok := l.(*ssa.Call); return ok && isRead(call) }():
 					hasRead = true
+				case isNilConst(l):
+				default:
+					other = true
 				}
-			}
-			if hasCache && hasRead {
-				okRet = true
 			}
 		}
-		o.check(okRet, key3, c.Pos(next.Pos()), "returns the cached token or the one just read", "NextToken does not return the cached-or-read token")
+		o.check(hasCache && hasRead && !other, key3, c.Pos(next.Pos()), "returns the cached token or the one just read", "NextToken does not return the cached-or-read token")
 	}
 	return o.list
 }
